@@ -16,7 +16,7 @@ lib.repo_env.assert_repo(M)
 
 PREFIX = [int(x) for x in os.environ.get("VERIF_C28_PREFIX", "").split(",") if x != ""]
 NOPS = int(os.environ.get("VERIF_C28_LEN", "2"))
-KSET = [int(x) for x in os.environ.get("VERIF_C28_KSET", "0,1,2,3,4,5,6,7").split(",")]
+KSET = [int(x) for x in os.environ.get("VERIF_C28_KSET", "0,1,2,3,4,5,6,7,8").split(",")]
 NK = len(KSET)
 
 
@@ -58,7 +58,13 @@ def derive(parent, kind, v):
         return parent.with_simulator(Quest(random_seed=10 + v))
     if kind == 6:
         return parent.coinflip_sim().with_shot_increment(v + 1)
+    if kind == 8:
+        # the *same* user-supplied simulator object handed to several configurations
+        return parent.with_simulator(SHARED[v])
     return parent.with_n_qubits(3 + v).statevector_sim()
+
+
+SHARED: list = [None, None]
 
 
 def h_script(seeded: bool, k1: int, k2: int, k3: int, k4: int, p2: int, p3: int, p4: int,
@@ -73,6 +79,7 @@ def h_script(seeded: bool, k1: int, k2: int, k3: int, k4: int, p2: int, p3: int,
     parents = [0, p2, p3, p4][:NOPS]
     vals = [v1, v2, v3, v4][:NOPS]
     base = EmulatorInstance(_instance=FakeSelene(), _n_qubits=2)
+    SHARED[0], SHARED[1] = Quest(), Quest(random_seed=5)
     if seeded:
         base = base.with_seed(7)
     insts = [base]
